@@ -175,20 +175,44 @@ func pathKinds(nodes map[string]dagNode, id string) []string {
 	return out
 }
 
+// classifyPath names the way from a consumer to a source by the groups it passes: entering a one-of
+// option is `and,or`, a wait-optional group `completion-and`, a soft-optional group `optional`; the
+// last hop to the source is a plain `and`. Nested tags give compound names (one-of>soft-optional).
 func classifyPath(p []string) string {
-	switch strings.Join(p, ",") {
-	case "and":
-		return "required"
-	case "and,or,and":
-		return "one-of"
-	case "completion-and,and":
-		return "wait-optional"
-	case "optional,and":
-		return "soft-optional"
-	case "completion-and":
+	if len(p) == 1 && p[0] == "completion-and" {
 		return "completion"
 	}
-	return strings.Join(p, ",")
+	var kinds []string
+	i := 0
+	for i < len(p)-1 {
+		switch {
+		case p[i] == "and" && p[i+1] == "or":
+			kinds = append(kinds, "one-of")
+			i += 2
+		case p[i] == "completion-and":
+			kinds = append(kinds, "wait-optional")
+			i++
+		case p[i] == "optional":
+			kinds = append(kinds, "soft-optional")
+			i++
+		default:
+			return strings.Join(p, ",")
+		}
+	}
+	if i != len(p)-1 || p[i] != "and" {
+		return strings.Join(p, ",")
+	}
+	if len(kinds) == 0 {
+		return "required"
+	}
+	return strings.Join(kinds, ">")
+}
+
+func composeKind(outer, tag string) string {
+	if outer == "required" {
+		return tag
+	}
+	return outer + ">" + tag
 }
 
 type dagNode struct {
@@ -239,17 +263,17 @@ func expectedRefs(p *ir.Program) map[string][]string {
 				return
 			case "oneof":
 				for _, o := range x.Opts {
-					walk(o.E, "one-of")
+					walk(o.E, composeKind(kind, "one-of"))
 				}
 				return
 			case "opt":
 				switch x.Tag {
 				case "ordisabled":
 					inner := x.Args[0]
-					walk(inner, "one-of")
-					out[consumer] = append(out[consumer], "steps."+inner.Path[1].(string)+".disabled.output|one-of")
+					walk(inner, composeKind(kind, "one-of"))
+					out[consumer] = append(out[consumer], "steps."+inner.Path[1].(string)+".disabled.output|"+composeKind(kind, "one-of"))
 				default:
-					walk(x.Args[0], x.Tag)
+					walk(x.Args[0], composeKind(kind, x.Tag))
 				}
 				return
 			}
@@ -405,6 +429,7 @@ func genPrepVariants(t *rapid.T, n int, permute, rename bool) []PrepVariant {
 var prepProfiles = []*ir.Profile{
 	{Name: "prep-mixed", MinSteps: 1, MaxSteps: 6, Durs: []int64{0, 5}, Modes: []string{"err"}, PBad: 10, PDeployFail: 10, PDeploySlow: 30, PDisabled: 30, PWaitFor: 50, MaxOutputs: 3, ErrOutput: true, PErrPathRef: 20, DeepExpr: true, PluginArith: true, StructRefs: true, PDeployExpr: 30},
 	{Name: "prep-tags", MinSteps: 2, MaxSteps: 5, Durs: []int64{0}, Tags: true, PDisabled: 40, PWaitFor: 30, MaxOutputs: 2},
+	{Name: "prep-tags-nested", MinSteps: 2, MaxSteps: 4, Durs: []int64{0}, Tags: true, SoftHang: true, PDisabled: 30, PWaitFor: 20, MaxOutputs: 2},
 	{Name: "prep-loops", MinSteps: 1, MaxSteps: 4, Durs: []int64{0}, Foreach: 50, PWaitFor: 30, PDisabled: 20, MaxOutputs: 2, ErrOutput: true},
 	{Name: "prep-stop", MinSteps: 1, MaxSteps: 3, Durs: []int64{0}, StopIf: true, PWaitFor: 30},
 }
